@@ -326,6 +326,11 @@ class Report(object):
     # -- finishing
     def finish(self, level="model_checking", rule="", extra=None):
         wall = time.time() - self.started
+        if self.violations and not any("replay" in v for v in self.violations):
+            # every counted violation was a repetition of a shape whose first instance was not printed: print one now
+            first = self.violations[0]
+            self.violations = []
+            self.violation(self.property_id.lower(), {"summary": first.get("what")}, None, None, first.get("what", "violation"))
         for finding in self._findings:
             if finding.get("status") == "open" and finding.get("property") == self.property_id \
                     and finding["id"] in self.known_met:
